@@ -54,9 +54,30 @@ class SimInterp(DexInterp):
     """DexInterp plus the concrete library fragment the lookup helpers use: nested defs, lambdas, filter / map /
     itertools.chain / operator.methodcaller, next(), sorted with key, list += (in place), dict.update, str.join, re"""
 
-    def __init__(self, *a, universe=None, **k):
+    def __init__(self, *a, universe=None, class_state=None, **k):
         super().__init__(*a, **k)
         self.universe = universe
+        # (class, attr) -> the mutable container a class-level `attr = {}` / `[]` / `set()` denotes: ONE object for the whole
+        # simulated process (shared by all instances and all later constructions)
+        self.class_state = class_state if class_state is not None else {}
+
+    def class_container(self, base, attr, func):
+        cls = base.cls if isinstance(base, Obj) else base.obj if isinstance(base, Ref) and base.kind == "class" else None
+        if cls is None or (isinstance(base, Obj) and self.mangle(attr, func) in base.attrs) or cls.lookup(attr) is not None:
+            return None
+        init = cls.lookup_attr(attr)
+        call = isinstance(init, ast.Call) and isinstance(init.func, ast.Name) and init.func.id in ("dict", "list", "set", "OrderedDict") and not init.args
+        if not (isinstance(init, (ast.Dict, ast.List, ast.Set)) or call):
+            return None
+        if isinstance(init, ast.Dict) and init.keys or isinstance(init, (ast.List, ast.Set)) and init.elts:
+            return None
+        holder = next((c for c in cls.mro() if attr in c.attrs), cls)
+        key = (holder.name, attr)
+        if key not in self.class_state:
+            kind = "dict" if isinstance(init, ast.Dict) or (call and init.func.id in ("dict", "OrderedDict")) else \
+                "list" if isinstance(init, ast.List) or (call and init.func.id == "list") else "set"
+            self.class_state[key] = {} if kind == "dict" else [] if kind == "list" else set()
+        return self.class_state[key]
 
     # ---- statements ---------------------------------------------------------------------------------
     def exec_stmt(self, s, env, func):
@@ -142,6 +163,12 @@ class SimInterp(DexInterp):
     # ---- expressions ------------------------------------------------------------------------------------
     def e_Attribute(self, e, env, func):
         base_node = e.value
+        if isinstance(base_node, ast.Name):
+            b0 = self.eval(base_node, env, func)
+            if isinstance(b0, (Obj, Ref)):
+                cc = self.class_container(b0, e.attr, func)
+                if cc is not None:
+                    return cc
         # class-level constants built by a call (re.compile(...), {True: methodcaller(...)}): evaluate the initialiser
         if isinstance(base_node, ast.Name) and base_node.id in ("self", "cls") or isinstance(base_node, ast.Name):
             base = self.eval(base_node, env, func)
